@@ -21,6 +21,8 @@ FUNCS = {
 }
 # whole files (macro headers that are #included into a function body, generic code instantiated by several backends): name "*"
 WHOLE = {
+    "C01": ["crypto_aead/aegis128l/aegis128l_common.h", "crypto_aead/aegis128l/aegis128l_soft.c", "crypto_aead/aegis256/aegis256_common.h", "crypto_aead/aegis256/aegis256_soft.c",
+            "crypto_aead/aegis128l/aead_aegis128l.c", "crypto_aead/aegis256/aead_aegis256.c", "crypto_core/softaes/softaes.c", "include/sodium/private/softaes.h"],
     "C03": ["crypto_stream/chacha20/dolbeau/u0.h", "crypto_stream/chacha20/dolbeau/u1.h", "crypto_stream/chacha20/dolbeau/u4.h", "crypto_stream/chacha20/dolbeau/u8.h",
             "crypto_stream/chacha20/dolbeau/chacha20_dolbeau-avx2.c", "crypto_stream/chacha20/dolbeau/chacha20_dolbeau-ssse3.c"],
 }
